@@ -1043,7 +1043,8 @@ func (dsc *dataStoreCommand) dictScanUnlocked(data *redisDict, cursor uint32, pa
 	count int,
 	isMatch func(item *redisDictItem) any) (output respValue) {
 	result := make([]any, 2)
-	matches := make([]any, 0, count)
+	// capacity hint only; count comes from the client and may be huge
+	matches := make([]any, 0, min(count, len(data.buckets)))
 
 	highBit := uint32(len(data.buckets)) // always a power of 2
 	shift := 32 - bitPosition(highBit)
@@ -1632,7 +1633,8 @@ func (dsc *dataStoreCommand) lmpop(keyNames []string, left bool, count int) (out
 	defer dsc.unlock()
 
 	var result []any
-	elements := make([]any, 0, count)
+	// no capacity hint: count comes from the client and may be huge
+	elements := []any{}
 
 	for _, keyName := range keyNames {
 		list, err := dsc.getListUnlocked(keyName)
